@@ -453,7 +453,7 @@ func (ex *Exec) tryMerge(a, b *Path) *Path {
 	m := a.Clone()
 	m.pc = append([]string(nil), a.pc[:n]...)
 	m.pc = append(m.pc, or(ca, cb))
-	if len(ca) > 48 {
+	if len(ca) > 48 && ex.quantFacts == nil {
 		// name the branch condition: it is embedded in every ite of the merged state
 		g := ex.c.Fresh("br", "Bool")
 		m.pc = append(m.pc, "(= "+g+" "+ca+")")
